@@ -88,12 +88,41 @@ def monitor(x, spec: dict, dp: t.Dict[str, int]) -> t.List[tuple]:
     return out
 
 
+def rename(spec: dict, mapping: t.Dict[str, str]) -> dict:
+    def r(x):
+        return mapping.get(x, x)
+    nodes = {}
+    for n, nd in spec['nodes'].items():
+        nd2 = json.loads(json.dumps(nd))
+        for p in nd2['params']:
+            if p[1] == 'in':
+                p[2] = r(p[2])
+        nodes[r(n)] = nd2
+    return {'nodes': nodes, 'input': r(spec['input']), 'output': r(spec['output'])}
+
+
+def renamings(spec: dict, tier: str) -> t.Iterator[dict]:
+    """Every assignment of the node names to the nodes: launch order inside the engine may depend on node ids
+    (set iteration, any id-ordered traversal), so the depth-level property must hold for every naming."""
+    names = list(spec['nodes'])
+    if len(names) > (5 if tier == 'quick' else 6):
+        return
+    for perm in itertools.permutations(names):
+        if list(perm) == names:
+            continue
+        yield rename(spec, dict(zip(names, perm)))
+
+
 def work(arg: tuple) -> dict:
     tier, fam, spec = arg
-    dp = depths(spec)
     out = dict(cases=0, executions=0, transitions=0, states=0, viol=[], sample=None)
-    for assign in assignments(spec, tier):
-        sp = json.loads(json.dumps(spec))
+    variants = [(assign, spec) for assign in assignments(spec, tier)]
+    if fam != 'corpus':
+        variants += [({n: 'async' for n in sp2['nodes']}, sp2) for sp2 in renamings(spec, tier)]
+        variants += [({n: 'thread' for n in sp2['nodes']}, sp2) for sp2 in renamings(spec, tier)] if len(spec['nodes']) <= 4 else []
+    for assign, base in variants:
+        dp = depths(base)
+        sp = json.loads(json.dumps(base))
         for n, m in assign.items():
             sp['nodes'][n]['mode'] = m
         case = X.Case(sp, [{}], fam=fam, collab={'events': False})
